@@ -303,7 +303,7 @@ def rows_match_fn(text):
     b = vlib.canon_bindings(sig, b, ["lhs", "lhs_row", "rhs", "rhs_row", "common_cols"], RM_LOCALS)
     m = re.search(r"(\w+)\.iter\(\)\.(all|any)\(\|\((\w+),\s*(\w+)\)\|\s*\{", b)
     if not m:
-        raise AnchorLost("rows_match: expected `common_cols.iter().all(|(lhs_col, rhs_col)| { .. })`")
+        return _rows_match_loop_form(b)
     # statements before the iterator expression (e.g. an early `return`) are kept verbatim
     pre = b[:m.start()]
     if pre.strip() and (not pre.rstrip().endswith(("}", ";")) or re.search(r"\b(data|iter|map|for|while|loop)\b", pre)):
@@ -330,6 +330,30 @@ def rows_match_fn(text):
     loop = "  for k_ in 0..%s.len()\n%s\n  {\n    let (%s, %s) = (&%s[k_].0, &%s[k_].1);\n    %s;\n    %s\n" % (xs, inv, a_, b_, xs, xs, ";\n    ".join(stmts), tail)
     return ("fn rows_match(lhs: &MechTable, lhs_row: usize, rhs: &MechTable, rhs_row: usize, %s: &Vec<(u64, u64)>) -> (res: bool)\n"
             "  ensures res == (forall|k: int| 0 <= k < %s@.len() ==> %s),\n{\n" % (xs, xs, EQ % ("k", "k")) + pre + "\n" + loop + "\n}\n")
+
+
+def _rows_match_loop_form(b):
+    """the same function written as an explicit loop: `for (a, b) in xs.iter() { stmts; if <test> { return false; } } true` (tests `x == y` / `x != y` on the two optional
+    cells -> `opt_eq`); statements before the loop are kept"""
+    m = re.search(r"for\s+\(\s*(\w+)\s*,\s*(\w+)\s*\)\s+in\s+(?:&?(\w+)|(\w+)\.iter\(\))\s*\{", b)
+    if not m:
+        raise AnchorLost("rows_match: expected `common_cols.iter().all(|(lhs_col, rhs_col)| { .. })` or an explicit loop over the common columns")
+    a_, b_, xs = m.group(1), m.group(2), m.group(3) or m.group(4)
+    e = match_brace(b, m.end() - 1)
+    pre, inner, tail = b[:m.start()], b[m.end():e - 1], b[e:].strip()
+    if tail not in ("true", "false") or (pre.strip() and re.search(r"\b(data|iter|map|for|while|loop)\b", pre)):
+        raise AnchorLost("rows_match: the explicit loop form is outside the transcription rules")
+    inner = re.sub(r"(\w+)\.data\.get\((\w+)\)\.map\(\|\(_,\s*col\)\|\s*col\.index1d\((\w+)\)\)", r"cell(\1, \2, \3)", inner)
+    inner = re.sub(r"\b(\w+)\s*==\s*(\w+)\b", r"opt_eq(\1, \2)", inner)
+    inner = re.sub(r"\b(\w+)\s*!=\s*(\w+)\b", r"!opt_eq(\1, \2)", inner)
+    if re.search(r"\b(data|iter|map|continue|break)\b", inner):
+        raise AnchorLost("rows_match: the loop body is outside the transcription rules")
+    EQ = "cellv(*lhs, %s@[%%s].0, lhs_row as int) == cellv(*rhs, %s@[%%s].1, rhs_row as int)" % (xs, xs)
+    inv = ("    invariant forall|j: int| 0 <= j < k_ ==> " + EQ % ("j", "j") + ",") if tail == "true" else ("    invariant forall|j: int| 0 <= j < k_ ==> !(" + EQ % ("j", "j") + "),")
+    loop = "  for k_ in 0..%s.len()\n%s\n  {\n    let (%s, %s) = (&%s[k_].0, &%s[k_].1);\n%s\n  }\n  %s" % (xs, inv, a_, b_, xs, xs, inner, tail)
+    post = "res == (forall|k: int| 0 <= k < %s@.len() ==> %s)" % (xs, EQ % ("k", "k"))          # the property's clause, whatever the loop computes
+    return ("fn rows_match(lhs: &MechTable, lhs_row: usize, rhs: &MechTable, rhs_row: usize, %s: &Vec<(u64, u64)>) -> (res: bool)\n"
+            "  ensures %s,\n{\n" % (xs, post) + pre + "\n" + loop + "\n}\n")
 
 
 # ---------------------------------------------------------------------------------------------------------------------
